@@ -157,6 +157,9 @@ def run(prog, rep, tier, cfg):
         for c in rs:
             if result_fate(H, c) != 'try':
                 rep.need('K8', 'tolerated-payout-fallback:%s' % hn.split('::')[-1], c15.fallback_to_burn(prog, X, H, c, burns), 'a tolerated failed payout must fall back into the burn (no FIL stranded)', c.where)
+    # ---- running totals (amounts, power, datacap) accumulated in loops keep their earlier contributions
+    X.accumulator_integrity('K12', 'running-totals', [c for c in prog.crates if c.startswith('fil_actor')], 'running totals of amounts')
+
 
 
 def post_dominated(prog, X, H, is_eff, is_chk, depth=0):
